@@ -23,6 +23,7 @@ def run(ctx):
     for i, p in enumerate(progs):
         tr = pc.validate_prog(ctx, exe, 2, p, WHAT, n, ctx.seed + i, mult=(1 if i % 2 else 32), pct=(3 if i % 3 == 0 else 0))
     ctx.sample({'programs': progs[:6]})
+    pc.stress(ctx, WHAT, 4000 if thorough else 400, 0)
     ctx.sample_trace(tr, 12, skip=40)
     ctx.assumptions += pc.ASSUME
 
